@@ -54,6 +54,12 @@ func Main(args []string) int {
 		return RunCheck(CheckOpts{Property: *prop, Tier: *tier, Seed: seed, Contracts: *contracts, Repo: *repo, Verbose: *verbose, NoEvidence: *noEv, WriteLedger: *ledger})
 	case "all":
 		return runAll(args[1:])
+	case "replay":
+		if len(args) < 2 {
+			fmt.Println("usage: gtverify replay <path>")
+			return 2
+		}
+		return ReplayFile(args[1])
 	case "func":
 		// debugging aid: verify one function and print every instance
 		return debugFunc(args[1:])
